@@ -84,8 +84,10 @@ def validTerm (tc : Char → Bool) (t : Term) : Bool :=
   | '!' :: '!' :: _ => false
   | _ => !(name t).isEmpty && (name t).all tc
 
-def validOpt (tc : Char → Bool) (o : Opt) : Bool := o.all (validTerm tc)
-def validConstraint (tc : Char → Bool) (c : Constraint) : Bool := c.all (validOpt tc)
+/-- `Option.Validate() == nil`: at least one term, every term valid. -/
+def validOpt (tc : Char → Bool) (o : Opt) : Bool := !o.isEmpty && o.all (validTerm tc)
+/-- `Constraint.Validate() == nil`: at least one option, every option valid. -/
+def validConstraint (tc : Char → Bool) (c : Constraint) : Bool := !c.isEmpty && c.all (validOpt tc)
 /-- `Constraints.Validate() == nil`. -/
 def validate (tc : Char → Bool) (cs : Constraints) : Bool := cs.all (validConstraint tc)
 
